@@ -255,16 +255,16 @@ PROPS["C12"] = {
         "trusted: Kani MIR->goto translation, CBMC, CaDiCaL, hooks yacc::parser::verif::*",
     ],
     "instances": [
-        I("c12::c12_ws_f3", bounds="3 free chars", termination=_SCANNERS, est_gb=5),
-        I("c12::c12_ws_block2", bounds="'/*' + 2 free chars", termination=_SCANNERS, est_gb=6),
-        I("c12::c12_ws_line2", bounds="'//' + 2 free chars", termination=_SCANNERS, est_gb=6),
-        I("c12::c12_ws_mb3", bounds="widths [1,2,1]", termination=_SCANNERS, est_gb=6),
-        I("c12::c12_ws_block3", "thorough", bounds="'/*' + 3 free chars", termination=_SCANNERS, est_gb=10),
-        I("c12::c12_ws_line3", "thorough", bounds="'//' + 3 free chars", termination=_SCANNERS, est_gb=10),
-        I("c12::c12_ws_mb", "thorough", bounds="widths [1,2,1,1]", termination=_SCANNERS, est_gb=10),
-        I("c12::c12_ws_f4", "thorough", bounds="4 free chars", termination=_SCANNERS, est_gb=10),
-        I("c12::c12_ws_block4", "thorough", bounds="'/*' + 4 free chars", termination=_SCANNERS, est_gb=10),
-        I("c12::c12_ws_f5", "thorough", bounds="5 free chars", termination=_SCANNERS, est_gb=10),
+        I("c12::c12_ws_f3", bounds="3 free chars", termination=_SCANNERS, est_gb=5, mem_gb=16),
+        I("c12::c12_ws_block2", bounds="'/*' + 2 free chars", termination=_SCANNERS, est_gb=6, mem_gb=16),
+        I("c12::c12_ws_line2", bounds="'//' + 2 free chars", termination=_SCANNERS, est_gb=6, mem_gb=16),
+        I("c12::c12_ws_mb3", bounds="widths [1,2,1]", termination=_SCANNERS, est_gb=6, mem_gb=16),
+        I("c12::c12_ws_block3", "thorough", bounds="'/*' + 3 free chars", termination=_SCANNERS, est_gb=10, mem_gb=16),
+        I("c12::c12_ws_line3", "thorough", bounds="'//' + 3 free chars", termination=_SCANNERS, est_gb=10, mem_gb=16),
+        I("c12::c12_ws_mb", "thorough", bounds="widths [1,2,1,1]", termination=_SCANNERS, est_gb=10, mem_gb=16),
+        I("c12::c12_ws_f4", "thorough", bounds="4 free chars", termination=_SCANNERS, est_gb=10, mem_gb=16),
+        I("c12::c12_ws_block4", "thorough", bounds="'/*' + 4 free chars", termination=_SCANNERS, est_gb=10, mem_gb=16),
+        I("c12::c12_ws_f5", "thorough", bounds="5 free chars", termination=_SCANNERS, est_gb=10, mem_gb=16),
         I("c12::c12_string_q3", bounds="quote + 3 free chars", termination=_SCANNERS),
         I("c12::c12_string_f3", bounds="3 free chars, any start", termination=_SCANNERS),
         I("c12::c12_string_mb", bounds="quote + widths [1,2,1]", termination=_SCANNERS),
@@ -307,19 +307,19 @@ PROPS["C10"] = {
         "trusted: Kani MIR->goto translation, CBMC, CaDiCaL, hook yacc::parser::verif::parse_ws",
     ],
     "instances": [
-        I("c12::c10_ws_f3", bounds="3 free chars over 7-letter alphabet", termination=_SCANNERS, est_gb=5),
-        I("c12::c10_ws_block2", bounds="'/*' + 2 free chars", termination=_SCANNERS, est_gb=6),
-        I("c12::c10_ws_star2", bounds="'/**' + 2 free chars", termination=_SCANNERS, est_gb=6),
-        I("c12::c10_ws_line2", bounds="'//' + 2 free chars", termination=_SCANNERS, est_gb=6),
-        I("c12::c10_ws_linemb", bounds="'//' + a 3-byte char + 2 free chars", termination=_SCANNERS, est_gb=8),
-        I("c12::c10_ws_witness", bounds="reachability twin ('/*' + 2 free chars)", expect_fail=True, est_gb=6),
-        I("c12::c10_ws_block3", "thorough", bounds="'/*' + 3 free chars", termination=_SCANNERS, est_gb=10),
-        I("c12::c10_ws_star3", "thorough", bounds="'/**' + 3 free chars", termination=_SCANNERS, est_gb=10),
-        I("c12::c10_ws_line3", "thorough", bounds="'//' + 3 free chars", termination=_SCANNERS, est_gb=10),
-        I("c12::c10_ws_mb", "thorough", bounds="widths [1,1,3,1]", termination=_SCANNERS, est_gb=10),
-        I("c12::c10_ws_f4", "thorough", bounds="4 free chars", termination=_SCANNERS, est_gb=10),
-        I("c12::c10_ws_block4", "thorough", bounds="'/*' + 4 free chars", termination=_SCANNERS, est_gb=10),
-        I("c12::c10_ws_f5", "thorough", bounds="5 free chars", termination=_SCANNERS, est_gb=10),
+        I("c12::c10_ws_f3", bounds="3 free chars over 7-letter alphabet", termination=_SCANNERS, est_gb=5, mem_gb=16),
+        I("c12::c10_ws_block2", bounds="'/*' + 2 free chars", termination=_SCANNERS, est_gb=6, mem_gb=16),
+        I("c12::c10_ws_star2", bounds="'/**' + 2 free chars", termination=_SCANNERS, est_gb=6, mem_gb=16),
+        I("c12::c10_ws_line2", bounds="'//' + 2 free chars", termination=_SCANNERS, est_gb=6, mem_gb=16),
+        I("c12::c10_ws_linemb", bounds="'//' + a 3-byte char + 2 free chars", termination=_SCANNERS, est_gb=8, mem_gb=16),
+        I("c12::c10_ws_witness", bounds="reachability twin ('/*' + 2 free chars)", expect_fail=True, est_gb=6, mem_gb=16),
+        I("c12::c10_ws_block3", "thorough", bounds="'/*' + 3 free chars", termination=_SCANNERS, est_gb=10, mem_gb=16),
+        I("c12::c10_ws_star3", "thorough", bounds="'/**' + 3 free chars", termination=_SCANNERS, est_gb=10, mem_gb=16),
+        I("c12::c10_ws_line3", "thorough", bounds="'//' + 3 free chars", termination=_SCANNERS, est_gb=10, mem_gb=16),
+        I("c12::c10_ws_mb", "thorough", bounds="widths [1,1,3,1]", termination=_SCANNERS, est_gb=10, mem_gb=16),
+        I("c12::c10_ws_f4", "thorough", bounds="4 free chars", termination=_SCANNERS, est_gb=10, mem_gb=16),
+        I("c12::c10_ws_block4", "thorough", bounds="'/*' + 4 free chars", termination=_SCANNERS, est_gb=10, mem_gb=16),
+        I("c12::c10_ws_f5", "thorough", bounds="5 free chars", termination=_SCANNERS, est_gb=10, mem_gb=16),
     ],
     "jobs": {"quick": 8, "thorough": 9},
 }
